@@ -128,6 +128,8 @@ func BuildMulti(g string, s []ro.Observable[any]) (ro.Observable[any], error) {
 		return ro.SampleWhen[any](s[1])(s[0]), nil
 	case "ThrottleWhen":
 		return ro.ThrottleWhen[any](s[1])(s[0]), nil
+	case "WindowWhen":
+		return tupleAny(ro.WindowWhen[any](s[1])(s[0])), nil
 	}
 	return nil, fmt.Errorf("multi catalogue: no constructor for %q", g)
 }
@@ -215,13 +217,13 @@ func replayMulti(idx int, c *MCase, mode string, out *[]Mismatch) {
 		r.pos = len(r.log)
 		r.mu.Unlock()
 		for _, g := range delta {
-			if r.terminated {
+			if r.terminated && (g.K == "N" || g.K == "E" || g.K == "C") {
 				add(i, "grammar", fmt.Sprintf("%s:%s delivered after a terminal notification", g.K, g.V))
 			}
 			if r.unsubbed {
 				add(i, "after-unsub", fmt.Sprintf("%s:%s delivered after Unsubscribe returned", g.K, g.V))
 			}
-			if g.K != "N" {
+			if g.K == "E" || g.K == "C" {
 				r.terminated = true
 			}
 		}
